@@ -25,10 +25,10 @@ func v4WideConfigs() []v4cfg {
 
 func v4WalkConfigs() []v4cfg {
 	return []v4cfg{
-		{name: "w29-4mix", cidr: "10.0.0.0/29", gateway: "10.0.0.1", clients: 4, hostile: 2, transport: []string{"mix"}},
-		{name: "w28-4mix", cidr: "10.0.0.0/28", gateway: "10.0.0.1", clients: 4, hostile: 1, transport: []string{"mix"}},
-		{name: "w30-3mix", cidr: "10.0.0.0/30", gateway: "10.0.0.1", clients: 3, hostile: 1, transport: []string{"mix"}},
-		{name: "w29-gwmid", cidr: "10.0.0.8/29", gateway: "10.0.0.11", clients: 4, hostile: 1, transport: []string{"direct", "relay82", "relay", "mix"}},
+		{name: "w29-4mix", cidr: "10.0.0.0/29", gateway: "10.0.0.1", clients: 4, fine: true, hostile: 2, transport: []string{"mix"}},
+		{name: "w28-4mix", cidr: "10.0.0.0/28", gateway: "10.0.0.1", clients: 4, fine: true, hostile: 1, transport: []string{"mix"}},
+		{name: "w30-3mix", cidr: "10.0.0.0/30", gateway: "10.0.0.1", clients: 3, fine: true, hostile: 1, transport: []string{"mix"}},
+		{name: "w29-gwmid", cidr: "10.0.0.8/29", gateway: "10.0.0.11", clients: 4, fine: true, hostile: 1, transport: []string{"direct", "relay82", "relay", "mix"}},
 	}
 }
 
